@@ -4,13 +4,16 @@
 import json, os, re, shutil, subprocess, sys
 VERIF = os.path.dirname(os.path.dirname(os.path.abspath(__file__)))
 for prop in sys.argv[1:]:
-    for x in 'ABCDEFGHIJKLMNOP':
-        src = '/tmp/mut/%s/%s' % (prop, 'out' if x in 'AB' else ('out2' if x in 'CD' else ('out3' if x in 'EF' else ('out4' if x in 'GH' else ('out5' if x in 'IJ' else ('out6' if x in 'KL' else ('out7' if x in 'MN' else 'out8')))))))
+    for x in 'ABCDEFGHIJKLMNOPQR':
+        src = '/tmp/mut/%s/%s' % (prop, 'out' if x in 'AB' else ('out2' if x in 'CD' else ('out3' if x in 'EF' else ('out4' if x in 'GH' else ('out5' if x in 'IJ' else ('out6' if x in 'KL' else ('out7' if x in 'MN' else ('out8' if x in 'OP' else 'out9'))))))))
         if not os.path.exists('%s/patch_%s.diff' % (src, x)):
             continue
         dst = os.path.join(VERIF, 'seeded', '%s-%s' % (prop, x))
         if os.path.exists(os.path.join(dst, 'patch.diff')):
             continue        # stored (and possibly re-based) already
+        if os.path.isdir(os.path.join(VERIF, 'notes',
+                                      'withdrawn-%s-%s' % (prop, x))):
+            continue        # withdrawn: no longer breaks the property
         os.makedirs(dst, exist_ok=True)
         shutil.copy('%s/patch_%s.diff' % (src, x), dst + '/patch.diff')
         shutil.copy('%s/demo_%s.py' % (src, x), dst + '/demo.py')
